@@ -665,7 +665,7 @@ func c17Generate(rng *verifkit.Rand) *c17Case {
 		if len(ends) > 0 {
 			prev := ends[rng.Intn(len(ends))]
 			cls := "chain"
-			for k := rng.Range(3, 6); k > 0; k-- {
+			for k := rng.Range(3, 6); k > 0 && len(c.Nodes)-1 < 38; k-- {
 				n := addNode(pickDir(3), "link")
 				n.Link = &c17Link{To: "node", Node: prev, Abs: rng.Chance(1, 3), Class: cls}
 				if !c.genCheck() {
